@@ -516,7 +516,9 @@ Proof.
   intros Hc Hs.
   destruct (prepass (emit_lines sp d) (emit_lines_nonempty sp d) (emit_lines_ok sp d Hc Hs)) as (Hsplit & Htab & Hff).
   fold (emit sp d) in Hsplit, Htab.
-  rewrite tokenize_plain; [|rewrite Hsplit; exact Hff|exact Htab].
+  assert (Hfr : dfront d = None).
+  { revert Hc. unfold core_doc. destruct (dfront d); [discriminate|reflexivity]. }
+  rewrite tokenize_plain; [|rewrite Hsplit; exact Hff|exact Htab|exact (emit_nonblank_head sp d Hfr)].
   set (st0 := mkLS (emit sp d) None 0 1 1 [] [] [] []).
   destruct (lex_doc sp d Hc Hs st0 eq_refl eq_refl eq_refl) as (st' & (Hst & (tsall & Ht & HF) & Hr & Hb & _) & Hin).
   rewrite (run_steps_finish cls st0 st' _ Hst Hin) by (cbn [ls_in st0]; lia).
